@@ -40,7 +40,10 @@ class Finding:
 
 
 class Alias:
-    def __init__(self, ctx, is_source: Callable[[Func, ast.AST], Optional[str]], owners: Optional[Set[str]] = None):
+    def __init__(self, ctx, is_source: Callable[[Func, ast.AST], Optional[str]], owners: Optional[Set[str]] = None, deep_attrs: bool = False):
+        # deep_attrs: a field read off an aliased object is itself aliased (needed when the shared object is a record
+        # holding containers, e.g. a NamedTuple with dict fields)
+        self.deep_attrs = deep_attrs
         self.ctx = ctx
         self.rs = ctx.rs
         self.repo = ctx.repo
@@ -71,9 +74,11 @@ class Alias:
             return None
         if isinstance(e, ast.Attribute):
             cls = self._recv_class(f, e.value)
-            if cls:
-                return self.taint_fields.get((cls, e.attr))
-            return None
+            r = self.taint_fields.get((cls, e.attr)) if cls else None
+            if r is None and self.deep_attrs and not (isinstance(e.value, ast.Name) and e.value.id in ("self", "cls")):
+                r0 = self.tainted(f, e.value, depth + 1)
+                r = f"field {e.attr} of {src(e.value)} <- {r0}" if r0 else None
+            return r
         if isinstance(e, ast.Subscript):
             if isinstance(e.slice, ast.Slice):
                 return None  # a slice is a fresh (shallow) copy
